@@ -59,6 +59,7 @@ PlainOps    == {"AddPageBreak", "RestartNumbering", "RemoveFootnote", "SetFootno
 SaveOps     == {"Save", "ToBytes"}                                                                   \* [op]
 \* "AddStyle" [op, tc, via]; "PageSet" [op, which]; "Reopen" [op, via]; "Render" [op, tc, via, img];
 \* "RenderText" [op, tk, tc]; "ConvertMd" [op, mk, tc, via]
+\* Render.prep = TRUE: the template document is first given the placeholder content of AddTemplateBits (one step)
 OtherOps    == {"AddStyle", "PageSet", "Reopen", "Render", "RenderText", "ConvertMd"}
 AllOps      == TextOps \cup HfOps \cup ImageOps \cup PlainOps \cup SaveOps \cup OtherOps
 
@@ -138,6 +139,7 @@ Writes(st, op) ==
   \cup (IF op.op \in ImageOps \cup {"AddImageText"} THEN {"media", "document", "docrels", "ctypes"} ELSE {})
   \cup (IF op.op \in {"AddStyle", "RemoveStyle", "SetTOCStyle", "TableStyle"} THEN {"styles", "document"} ELSE {})
   \cup (IF op.op \in {"Render", "Reopen"} THEN KindsIn(st.pkg) \cup {"media"} ELSE {})
+  \cup (IF op.op = "Render" /\ op.prep THEN {"header", "footer", "document", "docrels", "ctypes"} ELSE {})
   \cup (IF op.op \in {"RenderText", "ConvertMd"} THEN PartKinds ELSE {})
   \cup (IF op.op = "AddTemplateBits" THEN {"header", "footer", "document", "docrels", "ctypes"} ELSE {})
   \cup (IF op.op \in SaveOps \cup {"GetDocumentProperties"} THEN {} ELSE {"document"})
@@ -175,7 +177,7 @@ Ret(st, op) ==
   ELSE IF op.op = "AddImage" /\ op.via = "file" /\ op.fmt = "other" THEN "err"
   ELSE "ok"
 
-ApplyD(st, op, design) ==
+ApplyD1(st, op, design) ==
   IF Ret(st, op) # "ok" THEN [st EXCEPT !.taint = TRUE]
   ELSE [pkg |-> ApplyPkg(st, op, design),
         hdr |-> IF op.op \in HeaderOps THEN st.hdr \cup {op.kind}
@@ -189,6 +191,12 @@ ApplyD(st, op, design) ==
         by  |-> [k \in PartKinds |-> IF k \in Writes(st, op) THEN Writer(op) ELSE st.by[k]],
         taint |-> st.taint]
 
+ApplyD(st, op, design) ==
+  IF op.op = "Render" /\ op.prep
+  THEN LET mid == ApplyD1(st, [op |-> "AddTemplateBits"], design)
+           res == ApplyD1(mid, op, design)
+       IN [res EXCEPT !.by = [k \in PartKinds |-> IF mid.by[k] # st.by[k] \/ res.by[k] # mid.by[k] THEN Writer(op) ELSE st.by[k]]]
+  ELSE ApplyD1(st, op, design)
 Apply(st, op) == ApplyD(st, op, "byformat")
 
 \* comparison of the observable part of two packages, up to part order (no verdict: binding notes)
